@@ -49,8 +49,8 @@ OUTSIDE = ["boundaries other than rectangles (the chord obligation is stated for
 
 BOUNDS = {"quick": {"layouts": "quad (4 sensors in convex position), right (right-triangular hull with legs along the axes + 1 interior sensor)", "families": "one sensor free along x inside its Delaunay class (each sensor in turn); the whole layout under arbitrary translation and positive scaling; one extra sensor outside the boundary at list positions 0 / last",
                     "O4": "rectangle within 1e3 layout units (x the scaling), free sensor within 1e2; 15 s per query", "paths": 24},
-          "thorough": {"layouts": "quad, right, centre (3 + 1 interior), five (convex pentagon)", "families": "one sensor free in x, in y and in (x, y); similarity with three rotations; extra outside sensor at every list position",
-                       "O4": "as quick, 120 s per query", "paths": 400}}
+          "thorough": {"layouts": "quad, right, centre (3 + 1 interior), five (convex pentagon)", "families": "one sensor free in x, in y (not for five) and in (x, y) (quad / right, sensors 0 and 2); similarity with three rotations; extra outside sensor at every list position",
+                       "O4": "as quick, 120 s per query", "paths": 100}}
 
 # reference layouts: one Delaunay class each
 LAYOUTS = {
@@ -65,7 +65,7 @@ LAYOUTS = {
 
 def instances(tier):
     out = []
-    T = 230 if tier == "quick" else 900
+    T = 230 if tier == "quick" else 600
     layouts = ["quad", "right"] if tier == "quick" else ["quad", "right", "centre", "five"]
     for lay in layouts:
         n = len(LAYOUTS[lay])
@@ -78,8 +78,10 @@ def instances(tier):
                 out.append({"name": f"voronoi_{lay}_similarity_dropped_{d}", "func": "run_voronoi", "kwargs": {"layout": lay, "free_site": 0, "similarity": True, "drop_at": d}, "timeout": T})
         for i in range(n):
             out.append({"name": f"voronoi_{lay}_sensor{i}_free_x", "func": "run_voronoi", "kwargs": {"layout": lay, "free_site": i, "free_dims": 1}, "timeout": T})
-            if tier != "quick":
+            if tier != "quick" and lay != "five":
                 out.append({"name": f"voronoi_{lay}_sensor{i}_free_y", "func": "run_voronoi", "kwargs": {"layout": lay, "free_site": i, "free_dims": 1, "free_axis": "y"}, "timeout": T})
+            if tier != "quick" and lay in ("quad", "right") and i in (0, 2):
+                # two free coordinates: most queries exceed nlsat's reach in the budget (reported inconclusive); kept small on purpose
                 out.append({"name": f"voronoi_{lay}_sensor{i}_free_xy", "func": "run_voronoi", "kwargs": {"layout": lay, "free_site": i, "free_dims": 2}, "timeout": T})
         out.append({"name": f"voronoi_{lay}_sensor0_free_x_dropped_last", "func": "run_voronoi", "kwargs": {"layout": lay, "free_site": 0, "free_dims": 1, "drop_at": n}, "timeout": T})
     return out
@@ -310,7 +312,7 @@ def run_voronoi(rep, tier, layout, drop_at=None, L=None, scale="free", free_site
     sc_term = z3.Real("sc") if similarity else z3.RealVal(1)
     tx_term = z3.Real("tx") if similarity else z3.RealVal(0)
     ty_term = z3.Real("ty") if similarity else z3.RealVal(0)
-    for ctx, (coords, box, keep, vor, regions, indices) in rep.explore(run, max_paths=24 if tier == "quick" else 400, timeout_ms=8000):
+    for ctx, (coords, box, keep, vor, regions, indices) in rep.explore(run, max_paths=24 if tier == "quick" else 100, timeout_ms=8000):
         rep.reachable(ctx)
         P = vor.points
 
